@@ -37,10 +37,18 @@ class DeleteContext():
         # todo: improve imports. Remove circular ones.
         from lena.flow import get_data_context
         data, context = get_data_context(value)
+        if not self._keyl:
+            # empty key removes the entire context
+            context.clear()
+            return value
         subcont_key, key = self._keyl[:-1], self._keyl[-1]
         try:
             subcont = get_recursively(context, subcont_key)
         except LenaKeyError:
+            return value
+        if not isinstance(subcont, dict):
+            # the path passes through a value that is not
+            # a dictionary: there is no such key
             return value
 
         try:
